@@ -25,12 +25,13 @@ Frame ==
     [] Ev.e = "DELIVER_GOAWAY" -> UNCHANGED vars
     [] Ev.e = "RET" ->
          /\ UNCHANGED vars
-         /\ CASE Ev.sid = 0 -> TRUE                       \* served on another connection
-              [] Ev.retried -> RetErr(Ev.sid, TRUE)         \* whatever the final outcome was
+         /\ CASE Ev.sid = 0 /\ Ev.out \in {"ok", "abandoned"} -> Ev.own   \* served on another connection
+              [] Ev.sid = 0 /\ Ev.out = "cancelled" -> TRUE
+              [] Ev.sid # 0 /\ Ev.retried -> RetErr(Ev.sid, TRUE)         \* whatever the final outcome was
               [] Ev.out = "ok" -> RetOk(Ev.sid, Ev.blen, Ev.own)
               [] Ev.out = "abandoned" -> Ev.own            \* closed early: what it did read was its own
               [] Ev.out = "cancelled" -> TRUE
-              [] OTHER -> Ev.sid = 0 \/ RetErr(Ev.sid, Ev.retried)
+              [] OTHER -> RetErr(Ev.sid, Ev.retried) /\ ErrCause(Ev.sid)   \* a failure: reported, and caused
     [] Ev.e = "END" ->
          /\ UNCHANGED vars
          /\ NoWedge({Ev.live[j] : j \in DOMAIN Ev.live})
